@@ -109,7 +109,11 @@ func (c *Ctx) one(idx int, fn func(idx int, r *gen.R)) {
 			c.R.Violation(idx, "panic", c.Prop+"/panic/"+panicSite(st), fmt.Sprintf("panic escaped: %v\n%s", e, clipStack(st)), nil)
 		}
 	}()
-	fn(idx, gen.NewR(c.Seed, c.Prop, c.Sub, idx))
+	mode := ""
+	if c.Testing {
+		mode = "@test"
+	}
+	fn(idx, gen.NewR(c.Seed, c.Prop, c.Sub+mode, idx))
 }
 
 // panicSite names the first library frame below the panic for the signature.
